@@ -79,7 +79,7 @@ Definition is_alnum (c : N) : bool :=
 Definition any_char (dotall : bool) : re :=
   if dotall then RSet true [] else RSet true [(10%N, 10%N)].
 
-(* the inside of [...] after the optional ^ : literal characters and a-b ranges *)
+(* the inside of [...] after the optional ^ : literal characters, escaped characters and ranges a-b, \a-b *)
 Fixpoint parse_class (fuel : nat) (s : ustr) (acc : list (N * N)) : parsed (list (N * N)) :=
   match fuel with
   | O => PInvalid
@@ -90,7 +90,17 @@ Fixpoint parse_class (fuel : nat) (s : ustr) (acc : list (N * N)) : parsed (list
           if N.eqb c 93 then (match acc with [] => PUnsupported | _ => POk acc s' end)
           else if N.eqb c 92 then
             match s' with
-            | e :: s'' => if is_alnum e then PUnsupported else parse_class f s'' ((e, e) :: acc)
+            | e :: s'' =>
+                if is_alnum e then PUnsupported
+                else match s'' with
+                     | d :: e2 :: s3 =>
+                         (* an escaped character can begin a range, as a raw one does: [\.-z] *)
+                         if N.eqb d 45 && negb (N.eqb e2 93) then
+                           if N.eqb e2 92 then PUnsupported
+                           else if N.ltb e2 e then PInvalid else parse_class f s3 ((e, e2) :: acc)
+                         else parse_class f s'' ((e, e) :: acc)
+                     | _ => parse_class f s'' ((e, e) :: acc)
+                     end
             | [] => PInvalid
             end
           else if N.eqb c 91 then PUnsupported
@@ -201,7 +211,9 @@ Definition parse_regex (dotall : bool) (s : ustr) : parsed re :=
 
 (* results: Some (Some b) = matched / not; Some None = pattern does not compile; None = unsupported *)
 Definition regex_fullmatch (pattern : ustr) (icase dotall : bool) (s : ustr) : option (option bool) :=
-  if negb (is_ascii pattern) && icase then None
+  (* re.IGNORECASE folds some non-ASCII characters onto ASCII letters (U+212A, U+017F, U+0130, U+0131);
+     the matcher folds the ASCII letters only, so under that flag it answers for ASCII text only *)
+  if icase && (negb (is_ascii pattern) || negb (is_ascii s)) then None
   else match parse_regex dotall pattern with
        | POk r _ => Some (Some (re_matches icase (simp r) s))
        | PInvalid => Some None
